@@ -65,8 +65,10 @@ def extra(prop, tier):
         # more of the hand-shaped firewall / pivot families
         e["mix"] = {"benchmark": 0.12, "generated": 0.22, "yaml": 0.44,
                     "family": 0.22}
-    if prop in ("C09", "C10"):
-        e["huge_rate"] = 0.004     # a few scenarios with more than 200 hosts
+    if prop in ("C09", "C10", "C08"):
+        e["huge_rate"] = 0.004     # a few scenarios with 200-300 hosts
+        if prop == "C08":
+            e["huge_rate"] = 0.007
     if prop in ("C07", "C13", "C04"):
         e["big_rate"] = 0.06       # networks with 32-60 hosts
     if prop == "C11":
